@@ -52,7 +52,7 @@ CLAIMED = {
     "C06": ("fault_enumeration", "DESIGN.md §4 C06",
             "exhaustive single-point mutation of valid encodings (every byte x 10 values, every offset x 25 boundary / huge values incl. the neighbourhoods of the signed limits, as 8-byte field and as varint, every splice offset) decoded in memory-limited subprocesses with crash attribution and a non-termination watchdog",
             "Corpus: one block per registry composition (LowCardinality compositions also as a server may write them, with 16- and 64-bit keys) and the protocol messages. Each mutant is decoded through the typed target and through Auto; the worker runs with a 3 GiB address-space limit and the block row cap lowered to 65536 by an overlay (so that by-design allocations stay small and only length-field-driven ones can exhaust memory). Oracle: returns within 30 s, no panic, process alive, and on success Rows() equals the block's row count and Row(i) works for every i. A dying worker is attributed to the input it was decoding, provided a fresh process given that input alone dies as well, and restarted after it.",
-            "Trusted: the overlay that rewrites only the constant maxRowsInBLock. Quick covers every composition of depth <= 1 and every 7th of depth 2; thorough all."),
+            "Trusted: the overlay that rewrites only the constant maxRowsInBLock. Quick covers every composition of depth <= 1 and every 11th of depth 2; thorough all."),
     "C07": ("fault_enumeration", "DESIGN.md §4 C07",
             "exhaustive enumeration of every proper prefix of every corpus encoding (plain, and inside None / LZ4 / ZSTD frames as one and two frames), decoded through typed and inferred targets",
             "Corpus = C01 blocks (all compositions) and C17 messages at three revisions; ~2.2 million (encoding, cut, decoder) cases in the quick tier; a prefix the reference model parses as a complete message is excluded by construction. Values longer than the 1 MiB allocation step (seven block positions, three messages) are cut at a stated subset of positions (both ends, around every 64 KiB step, a 4099-byte stride). Oracle: an error, never nil.",
